@@ -449,6 +449,43 @@ func buildStubs() map[string]stubFn {
 		return ex.tc.Bool(ex.errorsIs(a[0], a[1]))
 	}
 	m["github.com/pkg/errors.Is"] = m["errors.Is"]
+	// errors.As(err, target): target is a non-nil pointer to a variable of interface or concrete type T; the first
+	// error in err's chain (Unwrap() error) whose dynamic type implements / is T is stored there
+	m["errors.As"] = func(ex *Exec, c *frame, fn *ssa.Function, a []Value) Value {
+		e, _ := a[0].(IfaceV)
+		tg, _ := a[1].(IfaceV)
+		pt, isPtr := tg.t.(*types.Pointer)
+		dst, _ := tg.v.(*Value)
+		if !isPtr || dst == nil {
+			ex.throw("errors: target must be a non-nil pointer")
+		}
+		T := pt.Elem()
+		for depth := 0; depth < 32 && e.t != nil; depth++ {
+			if it, isI := T.Underlying().(*types.Interface); isI {
+				if types.Implements(e.t, it) {
+					*dst = e
+					return ex.tc.True
+				}
+			} else if types.Identical(e.t, T) {
+				*dst = e.v
+				return ex.tc.True
+			}
+			if am := ex.eng.lookupMethod(e.t, nil, "As"); am != nil {
+				panic(engineErr("errors.As: custom As method not modelled"))
+			}
+			um := ex.eng.lookupMethod(e.t, nil, "Unwrap")
+			if um == nil {
+				break
+			}
+			r, ok := ex.callSSA(nil, um, []Value{e.v}, nil).(IfaceV)
+			if !ok {
+				break
+			}
+			e = r
+		}
+		return ex.tc.False
+	}
+	m["github.com/pkg/errors.As"] = m["errors.As"]
 	m["github.com/pkg/errors.callers"] = func(ex *Exec, c *frame, fn *ssa.Function, a []Value) Value {
 		return (*Value)(nil)
 	}
